@@ -41,6 +41,8 @@ def writers():
                         field(3, "default", ST("WFx", False)), field(4, "default", SET(ST("WFx", False))), field(5, "default", M(T("i32"), ST("WFx", True)))])
     # many small fields: readers that know every other one see many separate runs of unknown fields
     d["WRuns"] = struct([field(i, "default", T("i32") if i % 4 else T("string")) for i in range(1, 13)])
+    # a wide struct: more fields than fit a small position index
+    d["WWide"] = struct([field(3 * i + 1, "default", T("i32") if i % 5 else T("string")) for i in range(300)])
     return d
 
 
@@ -119,6 +121,12 @@ def build_pairs(rng, quick=True):
         masks.append({i for i in range(1, 13) if rng.random() < 0.4})
     for k, mk in enumerate(masks):
         P.reader("WRuns", [x for x in wr if x["id"] in mk], "runs-" + "_".join(map(str, sorted(mk))), unk=True)
+    ww = W["WWide"]["fields"]
+    P.reader("WWide", ww, "wide-same")
+    P.reader("WWide", ww, "wide-same-holder", unk=True)
+    P.reader("WWide", ww[100:], "wide-tail", unk=True)
+    P.reader("WWide", [x for j, x in enumerate(ww) if j % 2], "wide-odd")
+    P.reader("WWide", ww[:120] + ww[140:260] + ww[299:], "wide-gaps", unk=True)
     for wname in ("WScal", "WCont", "WOpt"):
         wf = W[wname]["fields"]
         inner_maps = [{"WIn": tin_same}] if wname != "WCont" else [
